@@ -213,6 +213,8 @@ def run(ctx):
             res.violation("NONREC", MOD + "._NonrecursivePickler", "call-depth-grows-with-object-depth",
                           f"abstract call depth of dumps() on chains of length 5/10/20 is {[depths[k][0] for k in (5, 10, 20)]} ({[depths[k][1] for k in (5, 10, 20)]}): serialisation recurses with the depth of the object graph")
     nonrec_structural(ctx, res)
+    from sa import eff
+    eff.check_fwd(ctx, [(MOD + ".dumps", "_NonrecursivePickler", {"obj": None}), (MOD + ".dump", "_NonrecursivePickler", {"obj": None})])
     # ---- REGISTRY (shared with C05)
     c05.registry(ctx, h, res)
     common.vacuity(res, "SPLICE-ORDER", 60)
